@@ -26,6 +26,10 @@ def o_time(case, obs):
     prev = obs[0][1]
     if obs[0][0] == "ok" and prev != case.get("t0", 0):
         return "time after init is %s, not the start time" % prev
+    for e in obs[0][2]:
+        f = e.split(":")
+        if f[0] in ("I", "H", "P") and int(f[-1]) != case.get("t0", 0):
+            return "init: %s observed time %s, not the start time %d" % (e, f[-1], case.get("t0", 0))
     for j, c in enumerate(case["cmds"]):
         res, t, es = obs[j + 1]
         if res == "noinit":
